@@ -38,6 +38,8 @@ KINDS = {
 # sized by a member of the ENCLOSING struct (only meaningful when the list is nested under a parent that has "pre")
 KINDS["ctxup"] = [["bytes", ["this", ["_", "pre"], "attr"]], ["array", ["this", ["_", "pre"], "item"], B1],
                   ["bytes", ["bin", "+", ["this", ["_", "pre"], "attr"], ["const", 1]]]]
+# counted arrays of elements that have no size: their _actualsize reads the count and only then finds out that it cannot answer
+KINDS["halfsizable"] = [["parray", B1, ["varint"]], ["parray", B1, ["cstr", "utf8"]], ["parray", ["varint"], ["pascal", B1, "utf8"]]]
 LAZY_OK = ("fixed", "ctx", "prefixed")
 
 
@@ -47,15 +49,20 @@ def member_lists(draw, for_lazy_wrapper=False, min_size=1, max_size=6, up=False)
     members = []
     kinds = []
     for i in range(n):
-        kind = draw(st.sampled_from(list(LAZY_OK) if for_lazy_wrapper else ["fixed", "fixed", "ctx", "prefixed", "prefixed", "unsizable"] + (["ctxup", "ctxup"] if up else [])))
+        kind = draw(st.sampled_from(list(LAZY_OK) if for_lazy_wrapper else ["fixed", "fixed", "ctx", "prefixed", "prefixed", "unsizable", "halfsizable"] + (["ctxup", "ctxup"] if up else [])))
         spec = draw(st.sampled_from(KINDS[kind]))
-        anonymous = spec[0] == "const" and draw(st.booleans())
+        # anonymous members: constants usually, any other kind now and then (an unnamed member is measured through its own
+        # _actualsize, a named one through Renamed)
+        anonymous = (spec[0] == "const" and draw(st.booleans())) or (not for_lazy_wrapper and draw(st.integers(0, 5)) == 0)
         members.append([None if anonymous else "m%d" % i, spec])
         kinds.append(kind)
     return members, kinds
 
 
 def build_input(draw, spec, params):
+    if spec[0] == "struct":
+        # (bytes do not depend on member names; an unnamed member that needs a value cannot be built, so name it for this purpose)
+        spec = ["struct", [[n or "anon%d" % i, sp] for i, (n, sp) in enumerate(spec[1])]]
     value = V.gen_value(draw, spec, R.top_scope(params, "build"))
     try:
         return R.ref_build(spec, value, params)
@@ -299,7 +306,7 @@ def array_oracle(ctx):
 
 @st.composite
 def array_cases(draw):
-    kind = draw(st.sampled_from(["fixed", "ctx", "prefixed", "prefixed", "unsizable"]))
+    kind = draw(st.sampled_from(["fixed", "ctx", "prefixed", "prefixed", "unsizable", "halfsizable"]))
     elem = draw(st.sampled_from(KINDS[kind]))
     params = dict(n=draw(st.integers(0, 3)), cnt=draw(st.integers(0, 4)))
     count = draw(st.sampled_from([params["cnt"], ["this", ["_params", "cnt"], "attr"]]))
